@@ -303,11 +303,22 @@ fn judge_table(printed: &Printed, img: &Image, stack: bool) -> Option<(String, S
     let plain = strip_ansi(&obs.dbg);
     let mut rows: std::collections::BTreeMap<u32, String> = Default::default();
     for line in plain.lines() {
+        // a row: some cell is `0x` + 4 hex digits; the source text is the cell after the label
+        // cell (the third of the table). Borders are presentation: a missing outer border only
+        // changes how many empty cells surround the three.
         let cells: Vec<&str> = line.split('│').collect();
-        if cells.len() == 5 && cells[1].trim().starts_with("0x") {
-            if let Ok(a) = u32::from_str_radix(cells[1].trim().trim_start_matches("0x"), 16) {
-                rows.insert(a, cells[3].strip_prefix(' ').unwrap_or(cells[3]).trim_end().to_string());
-            }
+        let Some(ai) = cells.iter().position(|c| {
+            let t = c.trim();
+            t.len() == 6 && t.starts_with("0x") && t[2..].chars().all(|h| h.is_ascii_hexdigit())
+        }) else {
+            continue;
+        };
+        if cells.len() < ai + 3 {
+            continue;
+        }
+        if let Ok(a) = u32::from_str_radix(cells[ai].trim().trim_start_matches("0x"), 16) {
+            let cell = cells[ai + 2];
+            rows.insert(a, cell.strip_prefix(' ').unwrap_or(cell).trim_end().to_string());
         }
     }
     if rows.is_empty() {
@@ -463,7 +474,7 @@ pub fn run(ctx: &Ctx) -> i32 {
         Level { category: "model_checking", bfs: None },
         "bounded-exhaustive enumeration: every ordered pair of 17 statement shapes (operand-less, operand-ful, every directive, multi-word, multi-byte strings, stack extension) in 3 arrangements (first statement at byte 0 / labelled with .break between / .orig in the middle), 5 origins (default, x0200, x7FFE crossing x8000, xFD00, x0000), a layout product (case, separators incl. commas, label colon, label on own line, trailing and full-line comments with multi-byte characters, indentation, .end); one debugger session per program queries `assembly` at EVERY address from origin-1 to origin+n+1 and `goto label`, `label+1`, `label-1`, `label+3` for every label; compared with the printer's statement spans and the reference symbol table; a second session in full (non-minimal) output adds a breakpoint at every statement address and one past the program and reads the source column of the `break list` table (same oracle); plus 27 single-query sessions on labels whose spelling the command language can also read as an integer or register (b1, o7, B0, x, o, b, b2, xg, r8, _1, 2nd, 9, each bare and with +1) and on a label after the 65535th word. non-trivial = sessions in which every query agreed",
         true,
-        &["session-agreed", "breakpoint-table-rows-compared"],
+        &["session-agreed"],
         &["the printer records the exact byte span of each statement it emits", "minimal-mode debugger text is read through the tee hook"],
         json!({}),
     )
